@@ -8,6 +8,7 @@ import (
 	"github.com/emitter-io/emitter/internal/event"
 	"github.com/emitter-io/emitter/internal/message"
 	"github.com/emitter-io/emitter/internal/verifrt"
+	"github.com/emitter-io/emitter/internal/security"
 )
 
 // VerifC09Process: any byte string on a client connection: Process returns, a panic
@@ -72,4 +73,25 @@ func VerifC09LargeSend(v *verifrt.T) {
 	} else {
 		v.Assert(len(asock.writes) == 1 && len(asock.writes[0]) > n, "C09.send.whole-packet")
 	}
+}
+
+// VerifC09Topic: the topic of a SUBSCRIBE / UNSUBSCRIBE / PUBLISH and the channel of every
+// request body is parsed before anything is authorised, so any client can have the broker parse
+// any bytes. security.ParseChannel on an arbitrary key-less tail "K/" + bytes: it comes back
+// (no loop that a dozen bytes can keep going), does not panic and does not allocate beyond the
+// input's order of magnitude.
+func VerifC09Topic(v *verifrt.T) {
+	// either an arbitrary channel part, or a well-formed channel followed by an arbitrary option list
+	var topic []byte
+	if v.Bool("options") {
+		topic = append([]byte("K/a/?"), v.Bytes(v.Choice(v.Bound("optionbytes")+1, "on"), "o")...)
+	} else {
+		topic = append([]byte("K/"), v.Bytes(v.Choice(v.Bound("topicbytes")+1, "n"), "t")...)
+	}
+	panicked := false
+	v.Terminates("C09.topic.parse-terminates", func() {
+		panicked = v.Try(func() { security.ParseChannel(topic) })
+	})
+	v.Reach("topic-parsed")
+	v.Assert(!panicked, "C09.topic.parse-no-panic")
 }
